@@ -29,6 +29,7 @@ type exprContext struct {
 	root             store.Cursor
 	result           Result
 	contextPosition  int
+	contextSize      int
 	principal        principalNodeType
 	builtinFunctions map[XmlName]Function
 	ContextSettings
@@ -63,11 +64,18 @@ func (c *exprContext) ContextPosition() int {
 	return c.contextPosition
 }
 
+// ContextSize returns the context size: the number of nodes in the list the
+// context node was taken from (what last() returns).
+func (c *exprContext) ContextSize() int {
+	return c.contextSize
+}
+
 func (e *exprContext) copy() exprContext {
 	return exprContext{
 		root:             e.root,
 		result:           e.result,
 		contextPosition:  e.contextPosition,
+		contextSize:      e.contextSize,
 		builtinFunctions: builtinFunctions,
 		ContextSettings:  e.ContextSettings,
 	}
